@@ -21,7 +21,7 @@ SPEC = dict(
          'request inside that operation, single|persistent) on which a failure was injected and the post-state audited.',
     exhaustive={'quick': 'every allocation request position of every generated history, single and persistent',
                 'thorough': 'every allocation request position of every generated history, single and persistent'},
-    require=['single-fault-runs', 'persistent-fault-runs', 'buf-setm-below-the-count-refused', 'state-unchanged-after-failed-call', 'retry-after-failure', 'retry-succeeded',
+    require=['refusal-produced-by-the-default-allocator-itself', 'single-fault-runs', 'persistent-fault-runs', 'buf-setm-below-the-count-refused', 'state-unchanged-after-failed-call', 'retry-after-failure', 'retry-succeeded',
              'failure-reported-only-when-a-request-was-refused', 'ledger-audited-at-destruction', 'seq-state-compared-with-model',
              'str-state-compared-with-model', 'que-state-compared-with-model', 'str-terminator-survives-failed-call',
              'que-drop-failure-leaves-suffix', 'que-setz-failure-keeps-old-size'],
